@@ -32,19 +32,20 @@ type Case struct {
 	PPL  int    `json:"ppl,omitempty"`  // pool prefix length
 	PL   int    `json:"pl,omitempty"`   // allocated prefix length / delegation length
 	// kind specific
-	Grace  uint64    `json:"grace,omitempty"`  // epoch
-	Gw     string    `json:"gw,omitempty"`     // gateway address (dhcp4pool, pppoe, localpool), decimal
-	ResLo  int       `json:"reslo,omitempty"`  // dhcp4pool ReservedStart
-	ResHi  int       `json:"reshi,omitempty"`  // dhcp4pool ReservedEnd
-	Conc   int       `json:"conc,omitempty"`   // >0: concurrent stress with this many goroutines (ops are split round-robin)
-	Race   bool      `json:"race,omitempty"`   // same-subscriber race rounds (Conc = seed of the callers-per-round sequence)
-	Rounds int       `json:"rounds,omitempty"` // race: number of barrier-released rounds
-	Lease  bool      `json:"lease,omitempty"`  // dist: lease mode (epoch allocator inside)
-	Univ   int       `json:"univ,omitempty"`   // dist: subscribers 0..Univ-1 are observed after every op
-	Ops    []Op      `json:"ops"`
-	Wire   int       `json:"wire,omitempty"`   // localpool: 0 Go API, 1 Go API + circuit-style IDs, 2 peer HTTP API + circuit-style IDs, 3 peer HTTP API
-	Srv6   *Srv6Case `json:"srv6,omitempty"`   // srv6: the DHCPv6 server over its two pools (srv6.go)
-	Origin string    `json:"origin,omitempty"` // generator name
+	Grace  uint64     `json:"grace,omitempty"`  // epoch
+	Gw     string     `json:"gw,omitempty"`     // gateway address (dhcp4pool, pppoe, localpool), decimal
+	ResLo  int        `json:"reslo,omitempty"`  // dhcp4pool ReservedStart
+	ResHi  int        `json:"reshi,omitempty"`  // dhcp4pool ReservedEnd
+	Conc   int        `json:"conc,omitempty"`   // >0: concurrent stress with this many goroutines (ops are split round-robin)
+	Race   bool       `json:"race,omitempty"`   // same-subscriber race rounds (Conc = seed of the callers-per-round sequence)
+	Rounds int        `json:"rounds,omitempty"` // race: number of barrier-released rounds
+	Lease  bool       `json:"lease,omitempty"`  // dist: lease mode (epoch allocator inside)
+	Univ   int        `json:"univ,omitempty"`   // dist: subscribers 0..Univ-1 are observed after every op
+	Ops    []Op       `json:"ops"`
+	Wire   int        `json:"wire,omitempty"` // localpool: 0 Go API, 1 Go API + circuit-style IDs, 2 peer HTTP API + circuit-style IDs, 3 peer HTTP API
+	Srv6   *Srv6Case  `json:"srv6,omitempty"`
+	Peers  *PeersCase `json:"peers,omitempty"`  // peers: a cluster of PeerPool nodes (peers.go)   // srv6: the DHCPv6 server over its two pools (srv6.go)
+	Origin string     `json:"origin,omitempty"` // generator name
 }
 
 var propFlag = flag.String("prop", "C01", "C01|C05")
